@@ -3,7 +3,7 @@
 from .. import duffy, grideq, rules, singular
 
 LEVEL = "other"
-TECHNIQUE = "symbolic extraction of the regular/singular Galerkin assemblers against integrand specs, near/far partition and singular-rule table agreement lints, exact Duffy change-of-variables proof"
+TECHNIQUE = "symbolic extraction of the regular/singular Galerkin assemblers against integrand specs, near/far partition and singular-rule table agreement lints, exact Duffy change-of-variables proof; segment stores evaluated in degenerate-support worlds; package-wide lints (integer width of index arrays, forwarding of the parameter object, geometry definitions)"
 LEVEL_TEXT = (
     "Decides the structural clauses that are necessary for the regular + singular split to be a Galerkin "
     "discretisation of the stated integrals on every mesh: exhaustive/disjoint near-far partition, agreement of the "
